@@ -1,35 +1,45 @@
 (** C20 — the debtags database keeps its two indexes mutually inverse.
-    Only statements; every proof is [exact <lemma>].
+    Only statements; every proof is [exact <lemma>] (or a two-line composition).
 
-    Model: Debtags/Model.v (linear layer [step]/[run], heap layer [hstep]);
-    spec: Debtags/Spec.v; proofs: Debtags/SetProofs.v, DictProofs.v, Proofs.v. *)
-From Verif Require Import Lib.Base Debtags.StrSet Debtags.Model Debtags.Spec Debtags.Proofs.
+    Model: Debtags/Model.v — LINEAR layer ([insert], [step], [run]: one collection
+    value) and HEAP layer ([h_insert], [hstep]: set and dict objects with
+    references, several live DB objects; this is the function the correspondence
+    check runs).  Spec: Debtags/Spec.v (a finite relation; several objects with
+    sharing groups).  Proofs: Debtags/SetProofs.v, DictProofs.v, Proofs.v (linear),
+    HeapBase.v, HeapInsert.v, HeapDerive.v, HeapWf.v, HeapSim.v, HeapTheorems.v. *)
+From Coq Require Import String.
+From Verif Require Import Lib.Base Lib.Dec Debtags.StrSet Debtags.Model Debtags.Spec
+  Debtags.Proofs Debtags.HeapWf Debtags.HeapSim Debtags.HeapTheorems.
 
-(** [Inv c] (Debtags/Proofs.v): a package is listed under a tag exactly when the tag
-    is listed for the package. *)
+(** [Inv c]: a package is listed under a tag exactly when the tag is listed for
+    the package. *)
 Goal forall c, Inv c =
   (forall p t, In p (packages_of_tag c t) <-> In t (tags_of_package c p)).
 Proof. reflexivity. Qed.
 
-(** 1. inverse_invariant, model with the one-token repair of K1 ([set((pkg,))]):
-       unconditional.  From ANY well-formed collection ([coll_wf]: distinct keys, sets
-       sorted, indexes inverse — the empty DB is one) and for ANY sequence of read /
-       insert / derivation steps inside the property's domain ([hist_dom]: tag files
-       with distinct package names, inserts of packages not yet known), the indexes
-       are mutually inverse afterwards. *)
+(** * A. One collection (linear layer) *)
+
+(** 1. inverse_invariant for the model with the one-token repair of K1
+       ([set((pkg,))]): unconditional.  From ANY well-formed collection
+       ([coll_wf]: distinct keys, sorted sets, indexes inverse; the empty DB is
+       one) and for ANY sequence of read / insert / derivation steps inside the
+       property's domain ([hist_dom]: tag files with distinct package names, inserts
+       of packages not yet known, [facet_collection] iterating over exactly the
+       packages of the collection), the indexes are mutually inverse afterwards. *)
 Theorem C20_inverse_invariant_repaired :
   forall c ops, coll_wf c = true -> hist_dom true c ops = true -> Inv (run true c ops).
 Proof. exact inverse_invariant_repaired. Qed.
 
-(** 2. inverse_invariant, code as written: under the side condition that no step
-       executes K1's trigger ([k1_free]: no first insert under a tag not yet in rdb
-       with a package name of length <> 1). *)
+(** 2. inverse_invariant for the code as written, under the side condition that
+       no step executes K1's trigger ([k1_free]: no first insert under a tag not yet
+       in rdb with a package name of length <> 1, directly or inside
+       facet_collection). *)
 Theorem C20_inverse_invariant :
   forall c ops, coll_wf c = true -> hist_dom false c ops = true -> k1_free c ops = true ->
     Inv (run false c ops).
 Proof. exact inverse_invariant_faithful. Qed.
 
-(** 3. off the trigger the code as written and the repaired code are the same function *)
+(** 3. faithful_eq_repaired_off_trigger *)
 Theorem C20_faithful_eq_repaired_off_trigger :
   forall ops c, k1_free c ops = true -> run false c ops = run true c ops.
 Proof. exact run_faithful_eq_repaired. Qed.
@@ -38,14 +48,14 @@ Theorem C20_insert_eq_repaired_off_trigger :
   forall c pkg tags, ins_trigger c pkg tags = false -> insert false c pkg tags = insert true c pkg tags.
 Proof. exact insert_faithful_eq_repaired. Qed.
 
-(** 4. the side condition is exact: an insert that executes the trigger always
-       breaks the invariant (whatever the collection). *)
+(** 4. the side condition is exact: an insert that executes the trigger breaks the
+       invariant, whatever the collection. *)
 Theorem C20_trigger_breaks_invariant :
   forall c pkg tags, ins_trigger c pkg (set_of_list tags) = true ->
     ~ Inv (insert false c pkg (set_of_list tags)).
 Proof. exact trigger_breaks_inv. Qed.
 
-(** 5. K1: the invariant is refuted for the code as written. *)
+(** 5. inverse_invariant_refuted (finding K1): insert "pkg" {"t"} on the empty DB. *)
 Theorem C20_inverse_invariant_refuted :
   exists pkg tags, ~ Inv (insert false empty_coll pkg tags).
 Proof.
@@ -53,8 +63,10 @@ Proof.
   exact (trigger_breaks_inv empty_coll [112; 107; 103]%N [[116%N]] eq_refl).
 Qed.
 
-(** 6. every query method agrees with the reference relation obtained by running
-       the Spec operations on the relation the initial collection stands for. *)
+(** 6. every query method (tags_of_package, packages_of_tag, card, has_package,
+       has_tag, package_count, tag_count) agrees with the reference relation
+       obtained by running the Spec operations on the relation the initial
+       collection stands for. *)
 Theorem C20_queries_agree_repaired :
   forall c ops, coll_wf c = true -> hist_dom true c ops = true ->
     queries_agree (run true c ops) (spec_run (rel_of c) ops).
@@ -65,7 +77,8 @@ Theorem C20_queries_agree :
     queries_agree (run false c ops) (spec_run (rel_of c) ops).
 Proof. exact queries_agree_faithful. Qed.
 
-(** [choose_packages_copy] raises KeyError exactly when the Spec says so *)
+(** [choose_packages_copy] raises KeyError exactly when the Spec says a requested
+    package is unknown *)
 Theorem C20_choose_copy_keyerror :
   forall fx c ops l, coll_wf c = true -> hist_dom true c ops = true ->
     step fx (run true c ops) (OChooseCopy l) = Err KeyError
@@ -73,6 +86,110 @@ Theorem C20_choose_copy_keyerror :
 Proof.
   intros fx c ops l Hc Hd. apply choose_copy_error, run_repr; [now apply coll_wf_repr|assumption].
 Qed.
+
+(** * B. Several live objects (heap layer: the functions [agree] runs) *)
+
+(** 7. In every reachable state, [DB.insert] changes the receiver exactly as the
+       linear [insert] of part A says (so theorems 1-6 speak about [h_insert]). *)
+Theorem C20_heap_insert_is_linear_insert :
+  forall fx ops o ob pkg tags,
+    let st := hrun fx empty_state ops in
+    nth_error (st_objs st) o = Some ob ->
+    let st' := hstate_of (hstep fx st (HInsert o pkg tags)) in
+    nth_error (st_objs st') o = Some ob
+    /\ view (st_heap st') ob = insert fx (view (st_heap st) ob) pkg (set_of_list tags).
+Proof. exact heap_insert_is_linear. Qed.
+
+(** 8. inverse_invariant for ANY history of operations on ANY number of live
+       objects (DB(), read, insert, and every derivation applied to any object,
+       inserts into sources and results alike): every object that the Spec still
+       specifies ([so_valid]: not a partner, documented as "sharing tagsets", of an
+       object that was modified; not read from a file with a repeated package; no
+       re-insert) has mutually inverse indexes, and all its queries agree with its
+       reference relation.  Repaired insert: unconditional; as written: off the trigger. *)
+Theorem C20_heap_inverse_invariant_repaired :
+  forall ops i, hops_dom true empty_state ops = true ->
+    obj_ok (hrun true empty_state ops) (srun true empty_state s_init ops) i.
+Proof. exact heap_inverse_invariant_repaired. Qed.
+
+Theorem C20_heap_inverse_invariant :
+  forall ops i, hops_dom false empty_state ops = true -> hk1_free empty_state ops = true ->
+    obj_ok (hrun false empty_state ops) (srun false empty_state s_init ops) i.
+Proof. exact heap_inverse_invariant_faithful. Qed.
+
+Goal forall st ss i, obj_ok st ss i =
+  (forall ob so,
+    nth_error (st_objs st) i = Some ob -> nth_error (ss_objs ss) i = Some so -> so_valid so = true ->
+    Inv (view (st_heap st) ob) /\ queries_agree (view (st_heap st) ob) (so_rel so)).
+Proof. reflexivity. Qed.
+
+Theorem C20_heap_faithful_eq_repaired_off_trigger :
+  forall ops, hk1_free empty_state ops = true -> hrun false empty_state ops = hrun true empty_state ops.
+Proof. exact (fun ops => hrun_faithful_eq_repaired ops empty_state hwf_empty). Qed.
+
+(** 9. copy_independent: in any reachable state, after [c' = c.copy()], ANY
+       interleaving of inserts into [c] and [c'] leaves each of the two looking
+       exactly as if only its own inserts had happened (D16: with the shallow
+       copy of the unrepaired tree this fails). *)
+Theorem C20_copy_independent :
+  forall fx ops o ob (l : mixed),
+    let st := hrun fx empty_state ops in
+    nth_error (st_objs st) o = Some ob ->
+    let st1 := hstate_of (hstep fx st (HCopy o)) in
+    let o' := length (st_objs st) in
+    exists ob',
+      nth_error (st_objs st1) o' = Some ob'
+      /\ nth_error (st_objs st1) o = Some ob
+      /\ view (st_heap st1) ob' = view (st_heap st) ob
+      /\ let st2 := hrun fx st1 (to_hops o o' l) in
+         st_objs st2 = st_objs st1
+         /\ view (st_heap st2) ob = lin_inserts fx (view (st_heap st) ob) (pick false l)
+         /\ view (st_heap st2) ob' = lin_inserts fx (view (st_heap st) ob) (pick true l).
+Proof. exact copy_independent. Qed.
+
+(** * Non-vacuity *)
+
+Local Open Scope string_scope.
+
+(** a linear history inside the domain, trigger-free, touching every kind of step *)
+Definition ex_ops : list op :=
+  [ORead [dec "a, b: role::program, use::editing"; dec "c: use::editing"; dec "d"] None;
+   OInsert (dec "e") [dec "use::editing"; dec "role::program"];
+   OFilterT (fun t => negb (str_eqb t (dec "zz")));
+   OChooseCopy [dec "a"; dec "c"; dec "e"];
+   OReverse; OReverseCopy;
+   OFilterPT (fun p ts => (1 <=? length ts)%nat);
+   OFacet [dec "a"; dec "c"; dec "e"];
+   OCopy].
+
+Example C20_nonvacuous_linear :
+  coll_wf empty_coll = true
+  /\ hist_dom false empty_coll ex_ops = true /\ hist_dom true empty_coll ex_ops = true
+  /\ k1_free empty_coll ex_ops = true
+  /\ package_count (run false empty_coll ex_ops) = 3%nat
+  /\ packages_of_tag (run false empty_coll ex_ops) (dec "use") = [dec "a"; dec "c"; dec "e"]
+  /\ q_pkgs_of (spec_run (rel_of empty_coll) ex_ops) (dec "use") = [dec "a"; dec "c"; dec "e"]
+  /\ ins_trigger empty_coll (dec "pkg") (set_of_list [dec "t"]) = true.
+Proof. vm_compute. repeat split. Qed.
+
+(** a heap history: four live objects, a sharing derivation, a copy, inserts into
+    source and copy, facet_collection *)
+Definition ex_hops : list hop :=
+  [HNew;
+   HRead 0 [dec "a, b: role::program, use::editing"; dec "c: use::editing"] None;
+   HCopy 0;
+   HInsert 1 (dec "d") [dec "use::editing"];
+   HFilterT 0 (fun t => str_eqb t (dec "use::editing"));
+   HInsert 0 (dec "e") [dec "role::program"];
+   HFacet 1 [dec "a"; dec "b"; dec "c"; dec "d"]].
+
+Example C20_nonvacuous_heap :
+  hops_dom false empty_state ex_hops = true /\ hops_dom true empty_state ex_hops = true
+  /\ hk1_free empty_state ex_hops = true
+  /\ map so_valid (ss_objs (srun false empty_state s_init ex_hops)) = [true; true; false; true]
+  /\ map (fun ob => package_count (view (st_heap (hrun false empty_state ex_hops)) ob))
+         (st_objs (hrun false empty_state ex_hops)) = [4; 4; 3; 4]%nat.
+Proof. vm_compute. repeat split. Qed.
 
 Print Assumptions C20_inverse_invariant_repaired.
 Print Assumptions C20_inverse_invariant.
@@ -83,3 +200,8 @@ Print Assumptions C20_inverse_invariant_refuted.
 Print Assumptions C20_queries_agree_repaired.
 Print Assumptions C20_queries_agree.
 Print Assumptions C20_choose_copy_keyerror.
+Print Assumptions C20_heap_insert_is_linear_insert.
+Print Assumptions C20_heap_inverse_invariant_repaired.
+Print Assumptions C20_heap_inverse_invariant.
+Print Assumptions C20_heap_faithful_eq_repaired_off_trigger.
+Print Assumptions C20_copy_independent.
